@@ -220,7 +220,7 @@ func runC04(rt *rapid.T, st *stats.Collector) {
 			}
 			// A follow-up query works as on a fresh connection.
 			g.e.srv.Steps = append(g.e.srv.Steps, itemStep(Item{Kind: "eos"}, simnet.AfterQuery(g.e.srvQueries()+1), 0, nil))
-			if err := g.client.Do(context.Background(), ch.Query{Body: "SELECT 2", QueryID: "after"}); err != nil {
+			if err := doBounded(rt, g.e, g.client, context.Background(), ch.Query{Body: "SELECT 2", QueryID: "after"}, time.Minute, "follow-up Do on the client left open"); err != nil {
 				rt.Fatalf("follow-up Do on the client left open fails: %v\n%s", err, describe())
 			}
 		}
